@@ -252,6 +252,11 @@ def run_case(case):
                 rec = data[8:8 + known]
                 recs.append(rec + rnd.randbytes(st - known))
             payload = R.c0(sub, st, recs)
+            if cnt > 0 and decode(5, 0xC0, payload)[0] is None:
+                viol.append({"mechanism": "announced-stride-not-honoured:at5." + {
+                    0x21: "zone_status", 0x23: "ac_status", 0x33: "timer_status"}[sub],
+                    "detail": {"payload": payload, "stride": st, "known": known,
+                               "why": decode(5, 0xC0, payload)[1]}})
             d = judge(5, 0xC0, payload, {0x21: "at5.zone_status", 0x23: "at5.ac_status10",
                                          0x33: "at5.timer_status"}[sub], viol, obs)
             dec += d
